@@ -380,7 +380,9 @@ class _NoJson(object):
 
 
 JATTRS = [{}, {"units": "m", "n": 3, "f": 2.5, "lst": [1, "a", [2.5]], "nested": {"k": [1, 2]}, "none": None, "flag": True},
-          {"ok": "yes", "bad": "NOJSON", "arr": "NDARRAY"}]
+          {"ok": "yes", "bad": "NOJSON", "arr": "NDARRAY"},
+          # metadata under the names of properties / methods of the array and of one of its dimensions
+          {"size": "large", "shape": "round", "ndim": "two", "dims": "space", "mean": 2.5, "max": 5.0, "x": "longitude", "values": "v", "T": "t", "labels": "l"}]
 
 
 def json_specs(tier):
@@ -398,6 +400,10 @@ def json_specs(tier):
                     out.append({"spec": D.spec(dims, labels, kinds, vk=vk, base=2, nan=nan, var=D.VARIANTS[k % len(D.VARIANTS)] if nd else "fresh"), "attrs": ai})
                     k += 1
     out.append({"spec": D.spec(["x"], [[]], ["i"], vk="f", base=1), "attrs": 1})
+    # arrays without elements whose empty axis is not the last one (values.tolist() is [] whatever the other sizes)
+    out.append({"spec": D.spec(["x", "y"], [[], ["a", "b", "c"]], ["i", "O"], vk="f", base=1), "attrs": 1})
+    out.append({"spec": D.spec(["x", "y"], [[10, 20], []], ["i", "O"], vk="f", base=1), "attrs": 0})
+    out.append({"spec": D.spec(["z", "x", "y"], [[0.5, 1.5], [], ["a", "b", "c"]], ["f", "i", "O"], vk="i", base=1), "attrs": 1})
     return out
 
 
